@@ -13,6 +13,7 @@ from checklib import *
 # property table.  kind t1: traced units + reflective theorems + correspondence.
 PROPS = {
     'C01': dict(kind='t1', units='C01', corr_quick=100, corr_thorough=5000),
+    'C13': dict(kind='t1', units='C13', corr_quick=300, corr_thorough=20000),
     'C19': dict(kind='t1', units='C19', corr_quick=300, corr_thorough=20000),
     'C02': dict(kind='t1', units='C02', corr_quick=60, corr_thorough=4000),
     'C04': dict(kind='t1', units='C04', corr_quick=200, corr_thorough=10000),
@@ -34,7 +35,7 @@ def prop_modules(prop):
 
 
 # hand-model properties integrated so far (checks/<cxx>.py, lean/Drv<Cxx>.lean)
-H_PROPS = ['C05', 'C07']
+H_PROPS = ['C05', 'C06', 'C07', 'C14']
 
 
 def parse_corr(out):
